@@ -144,6 +144,9 @@ def gen_instance(rng, profile=None):
     if slot_mode != "none":
         slots = []
         many = slot_mode == "many"     # slot-distribution profile: more slots, more tracks
+        # slots without any track (valid: they host nobody, yet maintenance is "considered" and the search runs); in one
+        # instance in twelve with slots ALL slots are such (seeded C16f)
+        zero_tracks = slot_mode == "zero_tracks" or (not many and rng.random() < 0.08)
         for s in range(rng.choice([3, 4, 5, 6]) if many else rng.choice([1, 1, 2, 3])):
             st = grid * rng.randrange(0, max(1, horizon // grid))
             en = st + grid * rng.choice([1, 2, 4])
@@ -152,7 +155,7 @@ def gen_instance(rng, profile=None):
                 "location": "L%d" % rng.randrange(nlocs),
                 "start": iso(st),
                 "end": iso(en),
-                "trackCount": rng.choice([1, 2, 3, 4, 6]) if many else rng.choice([1, 1, 2, 3]),
+                "trackCount": 0 if zero_tracks else (rng.choice([1, 2, 3, 4, 6]) if many else rng.choice([0, 1, 1, 1, 2, 3])),
             })
     # depots
     depot_mode = p.get("depots", rng.choice(["absent", "ample", "ample", "scarce", "restricted", "zero"]))
@@ -208,8 +211,12 @@ def gen_instance(rng, profile=None):
     if fb is not None:
         params["forbidDeadHeadTrips"] = fb
     if maxdist_mode != "absent":
+        # "spread": anywhere in the range of a rotation cycle's total distance, so that a reordering can take a cycle's
+        # counter from above the limit to below it (seeded C15f: replace_cycle crossing zero)
         md = {"zero": 0, "small": rng.choice([500, 1000, 3000]), "mid": rng.choice([5000, 7000, 12000]),
-              "large": 10 ** 6}[maxdist_mode]
+              "large": 10 ** 6, "spread": 0}[maxdist_mode]
+        if maxdist_mode == "spread":
+            md = rng.randrange(1000, 60000)
         params["maintenance"] = {"maximalDistance": md}
     # `indices` is a mapping: the matrices may list the locations in any order
     order = list(range(nlocs))
